@@ -232,11 +232,35 @@ func SkipRows(fn *ssa.Function) []string {
 		for _, l := range loops {
 			isHdr[l.Header] = true
 		}
-		summary := func(start *ssa.BasicBlock) string {
+		summary := func(from, start *ssa.BasicBlock) string {
 			b := start
+			prev := from
+			phis := ""
 			for hops := 0; hops < 6; hops++ {
+				// values this edge contributes to the phis of the block it enters
+				for i, p := range b.Preds {
+					if p != prev {
+						continue
+					}
+					var vs []string
+					for _, in := range b.Instrs {
+						ph, ok := in.(*ssa.Phi)
+						if !ok {
+							break
+						}
+						if _, nested := ph.Edges[i].(*ssa.Phi); nested {
+							continue
+						}
+						vs = append(vs, clip(argText(ph.Edges[i]), 50))
+					}
+					if len(vs) > 0 && phis == "" && !isHdr[b] {
+						sort.Strings(vs)
+						phis = "φ=" + strings.Join(vs, ",") + " "
+					}
+					break
+				}
 				if isHdr[b] {
-					return "next"
+					return phis + "next"
 				}
 				var effs []string
 				for _, in := range b.Instrs {
@@ -278,24 +302,22 @@ func SkipRows(fn *ssa.Function) []string {
 					if len(effs) > 4 {
 						effs = append(effs[:4], "…")
 					}
-					return strings.TrimSpace(strings.Join(effs, ",") + " " + end)
+					return phis + strings.TrimSpace(strings.Join(effs, ",")+" "+end)
 				}
 				if len(b.Succs) != 1 {
-					return "?"
+					return phis + "?"
 				}
-				if isHdr[b.Succs[0]] {
-					return "next"
-				}
+				prev = b
 				b = b.Succs[0]
 			}
-			return "…"
+			return phis + "…"
 		}
 		for _, b := range fn.Blocks {
 			ifi, ok := b.Instrs[len(b.Instrs)-1].(*ssa.If)
 			if !ok || isHdr[b] {
 				continue
 			}
-			out = append(out, "branch: "+clip(argText(ifi.Cond), 120)+" ? ["+summary(b.Succs[0])+"] : ["+summary(b.Succs[1])+"]")
+			out = append(out, "branch: "+clip(argText(ifi.Cond), 120)+" ? ["+summary(b, b.Succs[0])+"] : ["+summary(b, b.Succs[1])+"]")
 		}
 	}
 	// every branch condition of the function, in a polarity-independent form (the smaller of the two
